@@ -519,3 +519,36 @@ Section Parser.
   Definition parse_source_tokens (ts : list token) : option source := top (p_source (fuel_for ts) ts).
   Definition parse_lql_tokens (ts : list token) : option lql := top (p_lql (fuel_for ts) ts).
 End Parser.
+
+(* lql.ParseSource / lql.ParseExpr seen from the tokens: no token at all stands for the empty text,
+   which means "no condition" *)
+Definition parse_osource_tokens (parse_tags : bytes -> option tagset) (ts : list token) : option (option source) :=
+  match ts with [] => Some None | _ => option_map Some (parse_source_tokens parse_tags ts) end.
+Definition parse_oexpr_tokens (ts : list token) : option (option expr) :=
+  match ts with [] => Some None | _ => option_map Some (parse_expr_tokens ts) end.
+
+(* ---- text level: lexer, Unquote mapping, parser (Parser.ParseString) ---- *)
+Section Text.
+  Variable unq : bytes -> option bytes.           (* participle's unquote of a String token *)
+  Variable parse_tags : bytes -> option tagset.
+  Variable parse_time : bytes -> option Z.
+  Variable parse_size : bytes -> option N.
+
+  (* lql.ParseLql *)
+  Definition parse_lql_text (text : bytes) : option lql :=
+    match tokenize unq text with
+    | Some ts => parse_lql_tokens parse_tags parse_time parse_size ts
+    | None => None
+    end.
+  (* lql.ParseExpr / lql.ParseSource: the empty text is "nothing" (outer None = error) *)
+  Definition parse_expr_text (text : bytes) : option (option expr) :=
+    match text with
+    | [] => Some None
+    | _ => match tokenize unq text with Some ts => option_map Some (parse_expr_tokens ts) | None => None end
+    end.
+  Definition parse_source_text (text : bytes) : option (option source) :=
+    match text with
+    | [] => Some None
+    | _ => match tokenize unq text with Some ts => option_map Some (parse_source_tokens parse_tags ts) | None => None end
+    end.
+End Text.
